@@ -149,6 +149,9 @@ def checkLists (inp : Input) (es : List Elem) (obs : ObsIn) : List Fail :=
                                  site := "survey._generate_static_instances" }] else []) ++
         (match i.items with
          | some items => if itemsOk l (choicesOfList inp es l) items then [] else
+           if itemsOk l (choicesOfList inp.cleaned es l) items then
+             [{ kind := "items-smart-quotes", detail := c!"items of instance " ++ showS l ++ c!" differ from the sheet only by replaced smart quotes",
+                site := "xls2json.clean_text_values" }] else
              [{ kind := "instance-items", detail := c!"items of instance " ++ showS l ++ c!" are not the list's choices in sheet order",
                 site := "survey._generate_static_instances" }]
          | none => [{ kind := "instance-items", detail := c!"instance without root " ++ showS l, site := "survey._generate_static_instances" }])
@@ -211,20 +214,26 @@ def checkSels : List SelObs → List ObsSel → List Fail
 def checkCsv (inp : Input) (es : List Elem) (obs : ObsIn) : List Fail :=
   let want : Option (List (List Str)) :=
     if hasExternalSelect es then inp.extRows.map fun rows => inp.extHeader :: rows.map (rowByHeader inp.extHeader) else none
+  let wantClean : Option (List (List Str)) :=
+    if hasExternalSelect es then inp.cleaned.extRows.map fun rows => inp.extHeader :: rows.map (rowByHeader inp.extHeader) else none
   if obs.csv = want then [] else
+  if obs.csv = wantClean then
+    [{ kind := "csv-smart-quotes", detail := c!"itemsets CSV differs from the external_choices sheet only by replaced smart quotes",
+       site := "xls2json.clean_text_values" }] else
     [{ kind := "csv-cells", detail := c!"itemsets CSV does not reproduce the external_choices sheet cell for cell",
        site := "utils.external_choices_to_csv" }]
 
 /-- `none`: the workbook is outside the fragment in which the spec can read the select rows -/
 def holds (inp : Input) (obs : ObsIn) : Except String (List Fail) :=
+  let ci := inp.cleaned
   match walk [] inp.survey with
   | .error w => .error w
   | .ok (es, tbl) =>
-    let lists := applyOthers es (choicesOf inp.choiceCols inp.choices)
-    let extLists := match inp.extRows with
+    let lists := applyOthers es (choicesOf ci.choiceCols ci.choices)
+    let extLists := match ci.extRows with
       | some rows => (groupByKey listKey rows).map (·.1)
       | none => []
-    match selsObs inp tbl lists extLists es with
+    match selsObs ci tbl lists extLists es with
     | .error w => .error w
     | .ok sels =>
       .ok (checkLists inp es obs ++ checkIds obs ++ checkSources inp es obs ++ checkSels sels obs.selects ++ checkCsv inp es obs)
